@@ -591,6 +591,20 @@ def corrupt(rng, base):
     return out
 
 
+def all_edits(base):
+    """EVERY single-byte edit (delete; replace by / insert CR, LF, '-', 0xff) of a small valid body"""
+    body = base['body']
+    for i in range(len(body)):
+        variants = [('delete', 0, body[:i] + body[i + 1:])]
+        for byte in (0x0d, 0x0a, 0x2d, 0xff):
+            variants.append(('replace', byte, body[:i] + bytes([byte]) + body[i + 1:]))
+            variants.append(('insert', byte, body[:i] + bytes([byte]) + body[i:]))
+        for k, byte, nb in variants:
+            if nb != body:
+                yield {'boundary': base['boundary'], 'content_type': base['content_type'], 'body': nb,
+                       'valid': False, 'edit': [k, i, byte], 'nparts': len(base['parts'])}
+
+
 def load_mods():
     from falcon.media.multipart import MultipartFormHandler, MultipartParseError
     from falcon.util.reader import BufferedReader as SR
@@ -623,6 +637,12 @@ def main(ctx):
                 for c in corrupt(ctx.rng, b):
                     bad.append(specialise(ctx.rng, c, asyn))
         run_batch(ctx, mods, model, bad, asyn, 'corrupted')
+        small = [b for b in bases if 40 < len(b['body']) < 160 and b['parts']][: (3 if quick else 120)]
+        edits = []
+        for b in small:
+            for c in all_edits(b):
+                edits.append(specialise(ctx.rng, c, asyn))
+        run_batch(ctx, mods, model, edits, asyn, 'every-single-byte-edit')
     e2e(ctx, mods, bases[: (40 if quick else 400)])
     flush_corr(ctx)
     ctx.sample({'content_type': bases[0]['content_type'], 'body': repr(bases[0]['body'][:200])})
